@@ -1437,7 +1437,7 @@ pub fn run(args: &Args) -> i32 {
     rep.assumption("staging (stage_installed_contract_submission) is process-local and not acknowledged as durable; a pending submission's volatile ticketed-ingress id is excluded from cross-crash comparison");
     rep.assumption("WAL-internal coordinates of new transactions (writer epoch, LSN base after a repair) are not compared across recovery; submission ids, generations, receipts, commit hashes, state roots and provenance are");
 
-    let n_workloads = args.by_tier(2u64, 6u64);
+    let n_workloads = args.by_tier(2u64, 16u64);
     let mut all_exhaustive = true;
     let mut lanes_skipped: Vec<String> = Vec::new();
     let mut wl_summaries = Vec::new();
